@@ -856,6 +856,34 @@ func (c *Ctx) classifyErrSite(in ssa.Instruction) (int64, string) {
 	for _, cf := range expandConds(impliedConds(in.Block())) {
 		switch x := cf.Cond.(type) {
 		case *ssa.Extract:
+			// found-flag returned by a resolution helper
+			if call, ok := x.Tuple.(*ssa.Call); ok && !cf.True && in.Parent() == r.FnDisp {
+				if g := staticCallee(call); g != nil && c.P.allFns[g] {
+					isLk := false
+					allInstrs(g, func(y ssa.Instruction) {
+						rt, ok := y.(*ssa.Return)
+						if !ok || x.Index >= len(rt.Results) {
+							return
+						}
+						var lv []ssa.Value
+						leaves(rt.Results[x.Index], map[ssa.Value]bool{}, &lv)
+						for _, l := range lv {
+							if ex, ok := l.(*ssa.Extract); ok && ex.Index == 1 {
+								if lk, ok := ex.Tuple.(*ssa.Lookup); ok {
+									if mt, ok := lk.X.Type().Underlying().(*types.Map); ok {
+										if _, isStruct := mt.Elem().Underlying().(*types.Struct); isStruct {
+											isLk = true
+										}
+									}
+								}
+							}
+						}
+					})
+					if isLk {
+						return -32601, "method-not-found"
+					}
+				}
+			}
 			// comma-ok of a lookup in a map[string]<method struct>
 			if lk, ok := x.Tuple.(*ssa.Lookup); ok && x.Index == 1 && !cf.True {
 				if mt, ok := lk.X.Type().Underlying().(*types.Map); ok {
